@@ -525,20 +525,47 @@ def evaluate(ck, cases, tag="C08"):
     detail = {}
     if bad:
         sub = [lits[i] for i in bad]
-        bad_agree, e1 = common.coq_failing(tag + "_agree", HEADER, ty, "c08_agree", sub)
-        bad_mon, e2 = common.coq_failing(tag + "_mon", HEADER, ty, "c08_monitor", sub)
-        bad_hyg, e3 = common.coq_failing(tag + "_hyg", HEADER, ty, "c08_hyg", sub)
-        errs = errs + e1 + e2 + e3
+        fns = [("agree", "c08_agree"), ("mon", "c08_monitor"), ("hyg", "c08_hyg"),
+               ("k2", "c08_sig_k2"), ("k2b", "c08_sig_k2b")]
+        from concurrent.futures import ThreadPoolExecutor
+        with ThreadPoolExecutor(max_workers=len(fns)) as ex:
+            res = list(ex.map(lambda nf: common.coq_failing("%s_%s" % (tag, nf[0]), HEADER, ty, nf[1], sub), fns))
+        (bad_agree, e1), (bad_mon, e2), (bad_hyg, e3), (has_k2, e4), (has_k2b, e5) = res
+        errs = errs + e1 + e2 + e3 + e4 + e5
         for j, i in enumerate(bad):
-            if j in bad_mon and j not in bad_hyg:
-                verdicts[i] = "violation"
-            elif j in bad_mon and j in bad_hyg and j not in bad_agree:
-                verdicts[i] = "known"
-            else:
-                verdicts[i] = "mismatch"
-            detail[i] = {"model_differs": j in bad_agree, "monitor_false": j in bad_mon,
-                         "outside_hygiene": j in bad_hyg}
+            d = {"model_differs": j in bad_agree, "monitor_false": j in bad_mon,
+                 "outside_hygiene": j in bad_hyg, "sig_label_join": j in has_k2,
+                 "sig_name_clash": j in has_k2b}
+            detail[i] = d
+            verdicts[i] = classify(d)
     return obs, verdicts, detail, errs
+
+
+def classify(d):
+    """violation: the monitor is false on the implementation's graph inside H8.
+    known:K2 / known:K2b: false outside H8 on an input that has the finding's signature (and the
+    model reproduces the implementation's graph).  ood: false outside H8 without a signature
+    (a dependency that names no step, e.g. "_source_*": outside the domain of the property).
+    mismatch: model and implementation disagree."""
+    if d["monitor_false"] and not d["outside_hygiene"]:
+        return "violation"
+    if d["model_differs"]:
+        return "mismatch"
+    if d["monitor_false"]:
+        if d["sig_label_join"]:
+            return "known:K2"
+        if d["sig_name_clash"]:
+            return "known:K2b"
+        return "ood"
+    return "mismatch"
+
+
+KNOWN_WHAT = {
+    "K2": "labels of the used parameters are joined by '.' without escaping: two rows that differ on a used "
+          "parameter get one instance name and one of the two instances is lost (C08_ok false outside H8)",
+    "K2b": "step + '_' + combination is not escaped: an instance name equal to another step's name (or to an "
+           "instance of another step) merges two nodes (C08_ok false outside H8)",
+}
 
 
 def model_text(case):
@@ -561,7 +588,8 @@ def run(ck):
     cases += [gen_case(rng, "exotic") for _ in range(n_exotic)]
     obs, verdicts, detail, errs = evaluate(ck, cases)
     hist = {"streams": {}, "nodes": {}, "used_params_max": {}, "errors": {}, "rows": {}}
-    known_sig_hits = 0
+    sig_hits = {}
+    registered = {k.get("id"): k.get("witness", "") for k in ck.known}
     for i, (case, o) in enumerate(zip(cases, obs)):
         ck.count(case_key(case), nontrivial=nontrivial(case, o))
         hist["streams"][case["stream"]] = hist["streams"].get(case["stream"], 0) + 1
@@ -580,11 +608,16 @@ def run(ck):
         v = verdicts[i]
         if v == "violation":
             ck.violation("C08_ok is false on the graph Study.stage() built (inside hygiene H8)", clean(case))
-        elif v == "known":
-            known_sig_hits += 1
-            kid = "K2"
-            ck.known_hit(kid, "instance naming is not injective (labels joined by '.', step_name + '_' + combo): "
-                              "C08_ok fails outside hygiene H8; witness corpus/C08/k2_label_join.json")
+        elif v.startswith("known:"):
+            kid = v.split(":")[1]
+            sig_hits[kid] = sig_hits.get(kid, 0) + 1
+            if kid in registered:
+                ck.known_hit(kid, KNOWN_WHAT[kid] + "; witness " + registered[kid])
+            else:                      # the signature is not (or no longer) listed in KNOWN_FINDINGS.txt
+                ck.violation("C08_ok is false on the graph Study.stage() built (signature %s, not a listed known "
+                             "finding)" % kid, clean(case))
+        elif v == "ood":
+            sig_hits["out_of_domain"] = sig_hits.get("out_of_domain", 0) + 1
         elif v == "mismatch":
             ck.mismatch("model and Study.stage() disagree: %s" % json.dumps(detail.get(i)), clean(case),
                         model_text(case))
@@ -617,7 +650,10 @@ def run(ck):
         hist["scanner_probes"] = {"used_param": len(l1), "matched": sum(real["scan"]),
                                   "wsregex": len(l2), "with_match": sum(1 for r in real["ws"] if r)}
     ck.notes.update(regex_texts())
-    ck.notes["known_signature_hits"] = known_sig_hits
+    ck.notes["known_signature_hits"] = sig_hits
+    for k in ck.known:                  # a listed finding whose witness no longer fails is reported in evidence
+        if k.get("id") not in sig_hits:
+            ck.notes.setdefault("known_not_reproduced", []).append(k.get("id"))
     ck.cov["rule"] = ("corpus + exhaustive tiny scope (2 steps x dependency kind x which of the prefix-named parameters N/NX "
                       "each step mentions x value patterns) + seeded structured specifications (1-6 steps, ordinary and "
                       "funnel dependencies mixed, 0-4 parameters x 0-5 rows with repeated int/float/str values, template and "
@@ -647,7 +683,7 @@ def replay(ck, path):
     print("implementation:", json.dumps(obs[0], indent=1)[:6000])
     print("model:", model_text(case))
     print("verdict:", verdicts[0], detail.get(0), errs[:1])
-    return 0 if verdicts[0] in ("ok", "known") else 1
+    return 0 if verdicts[0] == "ok" or verdicts[0].startswith("known:") or verdicts[0] == "ood" else 1
 
 
 if __name__ == "__main__":
